@@ -135,11 +135,13 @@ def spec_nl(c):
 
 
 def spec_be(c):
-    if not re.fullmatch(r"0?[0-9]{9}", c):
+    """published: ten digits, the first 0 or (numbers issued since 2023) 1, the last two = 97 - (first eight mod 97);
+    a number starting with 0 may be written without it and never continues with another 0"""
+    if not re.fullmatch(r"[0-9]{9,10}", c):
         return False
     if len(c) == 9:
         c = "0" + c
-    if c[1] == "0":
+    if c[0] not in "01" or c[:2] == "00":
         return False
     return 97 - int(c[:8]) % 97 == int(c[8:])
 
@@ -334,6 +336,9 @@ def make_valid(rng, cc):
             b = rd(rng, 7)
             return "U" + b + str(at_cd(b))
         if cc == "BE":
+            if rng.random() < 0.3:                                # issued since 2023: leading 1 (so far followed by 0)
+                b = "1" + rng.choice("0001234567889") + rd(rng, 6)
+                return b + "%02d" % (97 - int(b) % 97)
             b = "0" + rng.choice("123456789") + rd(rng, 6)
             c = b + "%02d" % (97 - int(b) % 97)
             return c if rng.random() < 0.7 else c[1:]
@@ -453,7 +458,7 @@ def rand_code(rng, cc):
         return (rd(rng, 2) + "".join(rng.choice(L) for _ in range(5)) + rd(rng, 4) + rng.choice(L)
                 + rng.choice("123456789" + L) + "Z" + rng.choice(AN))
     if cc == "BE":
-        return rng.choice(["0", "0", ""]) + rd(rng, 9)
+        return rng.choice(["0", "0", "1", "1", ""]) + rd(rng, 9)
     if cc == "CO":
         return rd(rng, rng.choice([9, 10]))
     if cc == "MX":
@@ -514,6 +519,8 @@ WITNESSES = [   # recorded findings, refutation witnesses and the characterised 
     ("PT", "100000010"), ("PT", "600000010"), ("BR", "00000047514000"), ("BR", "20000047514000"),
     ("GB", "360837741"), ("GB", "367837741"), ("GB", "812865718"), ("GB", "872865718"),
     ("CH", "CHE-018.955.594 MWST"), ("CH", "E018955594MWSTMWST"), ("EL", "gr 321223300"), ("GR", "el 321223300"),
+    ("BE", "1000000021"), ("BE", "1000123448"), ("BE", "1012345646"), ("BE", "BE 1000.123.448"), ("BE", "1000123449"),
+    ("BE", "2000000042"), ("BE", "0012345625"), ("BE", "123456749"),
     ("GB", "XIGB957117743"), ("IN", "inin28AYQJU1485FNZH"), ("MX", "kgp-990751 7oc"), ("MX", "ñ&a010301i16"),
 ]
 
@@ -619,6 +626,15 @@ def special_forms(rng, cc, quick):
         for _ in range(100 if quick else 3000):
             b = rng.choice("123456789") + rd(rng, 6)          # nine digits, without the leading zero
             out.append(b + "%02d" % (97 - int("0" + b) % 97))
+        # ten digits by leading digit: 1 (issued since 2023) with the right key, one off, and every other leading digit 2..9
+        # and 00 given the key that would be right for it
+        for _ in range(100 if quick else 3000):
+            b = "1" + rng.choice(["000", "100", "999", rd(rng, 3)]) + rd(rng, 4)
+            k = 97 - int(b) % 97
+            out.append(b + "%02d" % k)
+            out.append(b + "%02d" % ((k + rng.randrange(1, 97)) % 100))
+            o = rng.choice(["00" + b[2:], rng.choice("23456789") + b[1:]])
+            out.append(o + "%02d" % (97 - int(o) % 97))
     return out
 
 
